@@ -114,6 +114,24 @@ CHECKS['C08'] = dict(
     note='"accepted" = the loader does not reject the text; reference outcome = real run without the failing element',
     design='§4 C08')
 
+CHECKS['C05'] = dict(
+    technique='TLA+ spec Rows.tla (row -> at most one transaction; cell vocabulary with known reading per decimal convention): TLC checks '
+              'OnePerGoodRow / RowLocal / BadRowsIrrelevant / SignLaw / NegateIsMirror / HeaderSkipsExactlyOne on every table of the bounded '
+              'universe; every state is rendered to CSV bytes (delimiter, quoting, line ending varied) and read by parse_format_string + '
+              'parse_generic_csv',
+    text='Exhaustive within bounds: each vocabulary cell (every malformation named in the property) in each position, every layout, sign '
+         'mode, decimal convention and header setting; the real parser output is compared field by field with the spec.',
+    note='cell vocabulary restricted to texts whose reading the statement fixes; location compared only when the column is filled',
+    design='§4 C05')
+CHECKS['C18'] = dict(
+    technique='TLA+ spec Format.tla (ParseFormat, DetectHeaders, Suggest): TLC checks PositionBijection / Rejects* / SuggestRoundTrips on '
+              'every token sequence and header row up to the width bound; every state replayed into parse_format_string, '
+              'auto_detect_csv_format and tally inspect',
+    text='Exhaustive up to width 4 (quick) / 5 (thorough): every arrangement of tokens and every header row; accepted/rejected, columns, date '
+         'format and sign mode compared; inspect\'s printed suggestion re-parsed and compared with its own report.',
+    note='date formats without commas; header texts from a vocabulary with known detection classes',
+    design='§4 C18')
+
 NOT_YET = {}
 
 
